@@ -401,6 +401,47 @@ func c19Proto(c *Ctx, infos []mappingInfo) {
 		}
 		c.R.check(bad == "" && nNil > 0, rule, "proto/FromProto/nil-message", shortFn(from), c.fpos(from), "m == nil returns (nil, error); fields of m are read only after m != nil", firstNonEmpty(bad, fmt.Sprintf("%d nil path(s)", nNil)))
 	}
+	// … and it refuses nothing else on its own: a message is turned down because it is nil, because its kind is
+	// unknown, or because the constructor of its kind turns the parameters down (a range check of its own on gamma or
+	// the offset refuses mappings that ToProto produces)
+	{
+		inArm := map[*Path]bool{}
+		for _, ps := range arms {
+			for _, p := range ps {
+				inArm[p] = true
+			}
+		}
+		badR := ""
+		for _, p := range fpaths {
+			if len(p.RetT) != 2 || p.RetNil(1) != -1 {
+				continue
+			}
+			nilMsg := false
+			for _, cd := range p.Conds {
+				if x, neq, ok := nilTest(cd.Term); ok && x.isParam(0) && neq != cd.Taken {
+					nilMsg = true
+				}
+			}
+			fromCtor := p.RetT[1].Op == "extract" && p.RetT[1].Sym == "1" && p.RetT[1].Args[0].Op == "call" && strings.Contains(p.RetT[1].Args[0].Sym, "WithGamma")
+			if nilMsg || fromCtor {
+				continue
+			}
+			if inArm[p] {
+				// the default arm (unknown kind) is an arm; a known kind's arm returning its own error is not
+				isDefault := false
+				for _, q := range arms["default"] {
+					if q == p {
+						isDefault = true
+					}
+				}
+				if isDefault {
+					continue
+				}
+			}
+			badR = "refused for another reason than a nil message, an unknown kind or the constructor's verdict: [" + p.String() + "]"
+		}
+		c.R.check(badR == "", rule, "proto/FromProto/refuses-nothing-else", shortFn(from), c.fpos(from), "error paths: nil message, unknown interpolation, or the error of the kind's constructor", firstNonEmpty(badR, "ok"))
+	}
 }
 
 func c19Ctors(c *Ctx, infos []mappingInfo) {
